@@ -44,8 +44,8 @@ Print Assumptions C37_refuted.
      another repository (main repository vs. subrepo, or two subrepos) is rejected (uses the regenerated list of
      dependency lookups of replaceSequenceLabel);
    - C37_split_join: for every list of paths over ordinary characters and the operators, shell-splitting the
-     space-joined list of individually quoted paths gives back exactly the paths, whereas quoting the joined list
-     once gives one word;
+     space-joined list of individually quoted paths gives back exactly the paths, and that list is what the output
+     loop of checkAndReplaceSequence builds (C37_join), whereas quoting the joined list once gives one word;
    - the label parser's fuel never runs out; every pass hands replaceSequence exactly the captured argument. *)
 Definition C37_partial_statement : Prop :=
   (forall w fl inp text ps, wf_world w = true -> replace_sequence w false fl inp = ROk (text, ps) ->
@@ -72,6 +72,10 @@ Definition C37_partial_statement : Prop :=
         label_key l <> t_lbl (w_self w) -> ~ In (label_key l) (declared_labels w) ->
         replace_sequence w test fl inp = RErr)
   /\ (forall ps, forallb name_ok ps = true -> shell_words (join_sp (map quote ps)) = Some ps)
+  /\ (forall w test runnable multiple dir outp is_self tool all d inp text ps,
+        check_and_replace w test (runnable, multiple, dir, outp, false) is_self tool all d [] inp = ROk (text, ps) ->
+        forallb name_ok (map piece_word ps) = true ->
+        text = join_sp (map quote (map piece_word ps)) /\ shell_words text = Some (map piece_word ps))
   /\ (forall p q ps, forallb name_ok (p :: q :: ps) = true -> needs_quote (join_sp (p :: q :: ps)) = true ->
         shell_words (quote (join_sp (p :: q :: ps))) <> Some (p :: q :: ps))
   /\ (forall w test fl inp, replace_sequence w test fl inp <> RFuel)
@@ -81,7 +85,7 @@ Theorem C37_partial : C37_partial_statement.
 Proof.
   exact (conj exists_partial (conj one_word (conj one_word_names (conj rejects_label (conj rejects_wrong_count
         (conj rejects_not_binary (conj rejects_unknown_entry_point (conj expands_only_exact_dependency (conj rejects_other_subrepo
-        (conj split_join_quote (conj quote_joined_once_wrong (conj never_out_of_fuel passes_offsets_ok)))))))))))).
+        (conj split_join_quote (conj car_text_is_join (conj quote_joined_once_wrong (conj never_out_of_fuel passes_offsets_ok))))))))))))).
 Qed.
 Print Assumptions C37_partial.
 
